@@ -13,7 +13,9 @@ every other model is unchanged by an operation on one model, and the held
 values of models without cross references are unchanged.
 """
 
+import importlib
 import os
+import sys
 import shutil
 import tempfile
 
@@ -54,7 +56,7 @@ def histories(draw):
     nmodels = 0
     nslots = 0
     for _ in range(draw(st.integers(6, 25))):
-        k = draw(st.integers(0, 14))
+        k = draw(st.integers(0, 15))
         idx = draw(st.integers(0, max(0, nmodels - 1)))
         if k <= 2 or nmodels == 0:
             ops.append(["new_model", draw(st.sampled_from(NAMES + [None, None]))])
@@ -64,6 +66,12 @@ def histories(draw):
             ops.append(["rename", idx, name, draw(st.booleans())])
         elif k == 5:
             ops.append(["close", idx])
+        elif k == 15 and nmodels >= 2:
+            # a space made from a module file in one model, copied into another model; the file is edited and the
+            # space reloaded in the first model only
+            j = draw(st.integers(0, nmodels - 1))
+            ops += [["module_space", idx], ["copy_across", idx, j], ["eval_src", j], ["reload", idx, draw(st.integers(2, 9))],
+                    ["eval_src", j]]
         elif k == 14:
             if draw(st.booleans()):
                 ops.append(["close_again", idx])
@@ -93,6 +101,9 @@ def histories(draw):
 
 def strategy(tier):
     return histories()
+
+
+_modcount = [0]
 
 
 def populate(m, v):
@@ -129,6 +140,7 @@ def _run(case, out, root):
     names = {}          # expected registry: name -> creation index
     xrefs = set()       # (holder idx, target idx)
     slots = {}          # slot -> (path, saved name)
+    modfiles = {}       # creation index -> module file its space Src was made from
     nt = False
     collision = False
 
@@ -367,6 +379,58 @@ def _run(case, out, root):
                     h.S.c.formula = "lambda x: x + %d" % op[3]
             except Exception as exc:
                 return out.fail("edit-raised", "%r raised %r" % (op, exc), i)
+        elif k in ("module_space", "copy_across", "reload", "eval_src"):
+            j = op[1]
+            if j >= len(handles) or not is_open[j]:
+                continue
+            modpath = modfiles.get(j)
+            try:
+                if k == "module_space":
+                    if "Src" in handles[j].spaces:
+                        continue
+                    _modcount[0] += 1
+                    modname = "vfc19mod_%d_%d" % (os.getpid(), _modcount[0])
+                    modpath = os.path.join(root, modname + ".py")
+                    with open(modpath, "w") as f:
+                        f.write("def foo(x):\n    return x + 1\n\n\ndef bar(x):\n    return foo(x) * 10\n")
+                    importlib.invalidate_caches()
+                    sys.path.insert(0, root)
+                    try:
+                        handles[j].new_space_from_module(modname, name="Src")
+                    finally:
+                        sys.path.remove(root)
+                    modfiles[j] = modpath
+                    touched.add(j)
+                elif k == "copy_across":
+                    t = op[2]
+                    if t >= len(handles) or not is_open[t] or t == j or "Src" not in handles[j].spaces \
+                            or "Src" in handles[t].spaces:
+                        continue
+                    handles[j].Src.copy(handles[t], "Src")
+                    touched.add(t)
+                elif k == "reload":
+                    # (only the space that was made from the module is reloaded; reload() of a copy is refused by
+                    #  the library)
+                    if "Src" not in handles[j].spaces or modpath is None:
+                        continue
+                    with open(modpath, "w") as f:
+                        f.write("def foo(x):\n    return x + %d00\n\n\ndef bar(x):\n    return foo(x) * 10\n" % op[2])
+                    st_ = os.stat(modpath)
+                    os.utime(modpath, (st_.st_atime + 5 * op[2], st_.st_mtime + 5 * op[2]))
+                    importlib.invalidate_caches()
+                    sys.path.insert(0, root)
+                    try:
+                        handles[j].Src.reload()
+                    finally:
+                        sys.path.remove(root)
+                    touched.add(j)
+                    out.count("reloads")
+                else:
+                    if "Src" in handles[j].spaces:
+                        handles[j].Src.bar(1)
+                        touched.add(j)
+            except Exception as exc:
+                return out.fail("module-space-raised", "%r raised %r" % (op, mx.get_error() or exc), i)
         elif k == "eval":
             j = op[1]
             if j >= len(handles) or not is_open[j]:
